@@ -110,3 +110,28 @@ Example C01_nonvacuous :
       [ex_signed 2 (KICert 2); ex_signed 9 (KICert 9); ex_signed 9 (KICert 0); ex_signed 9 KINone; ex_unsigned]
   = [OReject 1; OReject 1; OReject 1; OReject 1; OReject 1].
 Proof. split; [exact ex_accepted|exact ex_rejected]. Qed.
+
+(* What the unmarshaller reads is a function of what the digest covers: two elements with the
+   same canonical form (so: differing only in comments and in how character data is split)
+   unmarshal to the same assertion.  Comment injection, text splitting and signature
+   relocation cannot change the returned identity without changing the digest. *)
+Theorem C01_unmarshal_factors_canon :
+  forall e1 e2, canon e1 = canon e2 -> un_assertion e1 = un_assertion e2.
+Proof.
+  intros e1 e2 H. rewrite <- (un_assertion_visible e1), <- (un_assertion_visible e2),
+                          <- (visible_canon e1), <- (visible_canon e2), H. reflexivity.
+Qed.
+Print Assumptions C01_unmarshal_factors_canon.
+
+(* C01 in full, against an attacker who lacks the IdP's keys: if the keys the SP trusts have
+   signed nothing but the elements of H, then whatever document is presented, the assertion
+   returned is exactly what unmarshalling an element of H gives (assertion signed), or what
+   unmarshalling a candidate child of a Response in H gives (Response signed). *)
+Theorem C01_returns_only_signed_content :
+  forall cfg H ids now cur r a,
+    honest_signers cfg H r ->
+    parse_xml_response cfg ids now cur (DRoot r) = Ok a ->
+    exists h, In h H /\
+      (un_assertion h = Ok a \/ exists e', In e' (cand_elems h) /\ un_assertion e' = Ok a).
+Proof. exact accepted_is_signed_content. Qed.
+Print Assumptions C01_returns_only_signed_content.
